@@ -11,7 +11,7 @@ from vt.mon import contracts
 PROP = 'C14'
 TITLE = 'DFA closure constructions and finite-language helpers'
 SHARDS = {'quick': 8, 'thorough': 32}
-TIMEOUT = {'quick': 600, 'thorough': 3000}
+TIMEOUT = {'quick': 420, 'thorough': 3000}
 REQUIRED = ['dfa_union', 'dfa_intersection', 'dfa_symmetric_difference', 'dfa_complement', 'dfa_reverse', 'dfa_no_prefix', 'dfa_no_extend',
             'dfa_remove_unreachable_states', 'dfa_make_total', 'dfa_make_total_in_place', 'language_reverse', 'language_no_prefix',
             'language_no_extend', 'concatenation', 'words_up_to_n']
